@@ -46,7 +46,7 @@ FSM_RULE = ("Real MotionProcessor fed by a scripted parser; cases: (1) ~330 conf
             "(2) same configs x all strings of length 7 (thorough 10) x one disturbance {window closed, disk check fails, file creation fails, bad frame, reset} at every position; "
             "(3) seeded random scripts (50-2000 events, fps<=9, preview<=5, max<=12s, realistic 3/20 and 10/600 settings) with bad frames, resets and refusals, every fifth one additionally with failing post-trigger WriteFrame calls (5/30/100 %) and failing StopRecording calls (half that rate); (4) trigger-position sweep for cap 1..24.")
 FSM_ASSUME = COMMON_ASSUME + ["the driver aims at motion with a toggling hot pixel, but oracles take the observed MotionDetected callbacks as input"]
-FSM_JOB = {"pkg": "motion", "test": "TestVerif_FSM", "shards": (16, 16), "timeout": (300, 3000), "require": ["recordings", "motion_frames_observed", "post_trigger_write_faults", "stop_faults"]}
+FSM_JOB = {"pkg": "motion", "test": "TestVerif_FSM", "shards": (16, 16), "timeout": (300, 3000), "require": ["recordings", "motion_frames_observed", "post_trigger_write_faults", "stop_faults", "scripts_with_non_increasing_time_on"]}
 
 TH_RULE = ("Real ThrottledRecorder (NewThrottledRecorderWithClock, fake clock) between a scripted caller and a monitor sink. Cases: (1) seeded random schedules from (Start Write* Stop)* with 5..6000 ops, "
            "bucket 1-60 s (and the shipped 600 s), refill 1 s..1 h, min+preview 1-20 s, fps 1-9, wrapped-start failure rate 0/10/40 %; (2) wrapped start failing at call index 0..11; "
@@ -113,7 +113,7 @@ PROPS = {
         "technique": "offline interval-bound checker on a timestamped event log (injected clock; production clock with emulated wall-clock steps)",
         "jobs": [dict(TH_JOB),
                  {"pkg": "throttle", "test": "TestVerif_C05ClockStep", "shards": (8, 16), "timeout": (300, 1800), "require": ["clock_step_runs", "clock_steps_forward", "clock_steps_backward", "runs_with_dry_bucket", "forwarded_writes"]},
-                 {"pkg": "recorder-main", "test": "TestVerif_C05Pipe", "shards": (8, 16), "timeout": (600, 2400), "require": ["pipeline_runs", "frames_recorded_throttled", "throttled_files", "throttle_cut_files"]},
+                 {"pkg": "recorder-main", "test": "TestVerif_C05Pipe", "shards": (8, 16), "timeout": (600, 2400), "require": ["pipeline_runs", "frames_recorded_throttled", "throttled_files", "throttle_cut_files", "runs_with_continuous_recorder", "runs_after_a_camera_with_another_fps"]},
                  {"pkg": "throttle", "test": "TestVerif_ThrottleComposition", "shards": (16, 16), "timeout": (300, 2400), "require": ["composition_runs", "base_starts_checked", "mid_trigger_restarts", "base_start_failures", "runs_with_disk_low_windows"]}],
     },
     "C06": {
@@ -130,7 +130,7 @@ PROPS = {
         "technique": "online per-operation monitor + pairing automaton on the wrapped recorder",
         "jobs": [dict(TH_JOB),
                  {"pkg": "recorder-main", "test": "TestVerif_Daemon", "daemon": True, "shards": (1, 1), "timeout": (300, 600)},
-                 {"pkg": "recorder-main", "test": "TestVerif_C05Pipe", "shards": (8, 16), "timeout": (600, 2400), "require": ["pipeline_runs", "throttled_files", "throttle_cut_files"]},
+                 {"pkg": "recorder-main", "test": "TestVerif_C05Pipe", "shards": (8, 16), "timeout": (600, 2400), "require": ["pipeline_runs", "throttled_files", "throttle_cut_files", "runs_with_continuous_recorder", "runs_after_a_camera_with_another_fps"]},
                  {"pkg": "throttle", "test": "TestVerif_ThrottleComposition", "shards": (16, 16), "timeout": (300, 2400), "require": ["composition_runs", "base_starts_checked", "mid_trigger_restarts", "base_start_failures", "runs_with_disk_low_windows"]}],
     },
     "C07": {
@@ -144,7 +144,7 @@ PROPS = {
         "level_text": "Reference-model monitor in lock-step with the real detector over boundary-biased random streams and the full mode matrix; judged per frame on the boolean verdict (the changed-pixel count is internal).",
         "level_note": "Pixel/threshold boundary cases are targeted by the generator, not enumerated.",
         "technique": "reference-model runtime monitor (lock-step differential)",
-        "jobs": [{"pkg": "motion", "test": "TestVerif_C07", "shards": (16, 16), "timeout": (300, 2400), "require": ["frames", "motion_frames", "frames_at_count_boundary", "streams_via_processor_api", "streams_via_detect", "blinking_blob_streams"]}],
+        "jobs": [{"pkg": "motion", "test": "TestVerif_C07", "shards": (16, 16), "timeout": (300, 2400), "require": ["frames", "motion_frames", "frames_at_count_boundary", "streams_via_processor_api", "streams_via_detect", "blinking_blob_streams", "boson_sized_streams"]}],
     },
     "C08": {
         "title": "Edge-border pixels and sub-threshold (cold) pixels never influence detection",
@@ -177,7 +177,7 @@ PROPS = {
         "title": "Only complete recordings ever bear the .cptv name; crashes leave no debris",
         "level": "fault_enumeration",
         "rule": "Scenarios through the real handleConn + CPTVFileRecorder in a child process (test binary re-executed): S1 one motion recording, S2 two back-to-back, S3 throttle cut, S4 test recording overlapping a motion recording, "
-                "S5 constant recorder on, S6 connection dropped in mid-frame (Stop path), S7 'clear' in mid-recording, S8 test recording and motion recording starting on the same frame, S9 throttle cut and restart within one trigger, S10 every start failing while the header is written, S11 the temporary names of the next 100 ms already taken when the motion recording starts (quick: S1,S3,S4,S5,S6,S8,S10,S11). "
+                "S5 constant recorder on, S6 connection dropped in mid-frame (Stop path), S7 'clear' in mid-recording, S8 test recording and motion recording starting on the same frame, S9 throttle cut and restart within one trigger, S10 every start failing while the header is written, S11 the temporary names of the next 100 ms already taken when the motion recording starts S12 output directory and constant-recordings folder reached through symbolic links (quick: S1,S3,S4,S5,S6,S8,S10,S11,S12). "
                 "An uncrashed run counts the hook hits H - the file recorder's own hooks (after create, after header, before/after each frame write, before Close, between Close and rename, after rename, abort path) and hook calls inserted by build overlay into a copy of go-cptv's file writer "
                 "(between its three file creations; in Close after flush, header patch, gzip copy, gzip flush/close, buffered flush, before/after closing and deleting the scratch file); then for EVERY n in 0..H the child SIGKILLs itself at hit n. "
                 "Oracles: I1 - every *.cptv decodes header to EOF with the stock reader, checked synchronously at every hook inside the child, by a free-running observer goroutine, and by the parent on the directory as found; "
@@ -258,7 +258,7 @@ PROPS = {
             {"pkg": "headers", "test": "TestVerif_C14Header", "tag": "386", "goarch": "386", "shards": (4, 8), "timeout": (300, 1800), "require": ["headers", "truncation_points"]},
             {"pkg": "leptond-main", "test": "TestVerif_C14Agree", "tag": "leptond", "shards": (1, 1), "timeout": (120, 120), "require": ["constant_sets_reported"]},
             {"pkg": "recorder-main", "test": "TestVerif_C14Agree", "tag": "recorder", "shards": (1, 1), "timeout": (120, 120), "require": ["constant_sets_reported"]},
-            {"pkg": "recorder-main", "test": "TestVerif_C14Pipe", "race": True, "shards": (16, 16), "timeout": (600, 3000), "require": ["connections", "frames_verified_in_storage", "clear_markers", "recordings_ended_by_clear", "motion_files", "bad_frames_in_streams"]},
+            {"pkg": "recorder-main", "test": "TestVerif_C14Pipe", "race": True, "shards": (16, 16), "timeout": (600, 3000), "require": ["clears_with_failing_stop", "connections", "frames_verified_in_storage", "clear_markers", "recordings_ended_by_clear", "motion_files", "bad_frames_in_streams"]},
         ],
     },
     "C15": {
@@ -273,7 +273,7 @@ PROPS = {
         "level_text": "In-package invariant monitor evaluated after every Detect, plus comparison of the snapshot handed to the motion sink.",
         "level_note": "The 'recompute after more than preview*fps background updates' schedule is taken from the detector's design; the property fixes only the value.",
         "technique": "invariant monitor on hooked (in-package) state",
-        "jobs": [{"pkg": "motion", "test": "TestVerif_C15", "shards": (16, 16), "timeout": (300, 2400), "require": ["frames", "threshold_recomputations", "reseeds", "recording_starts_checked", "ffc_frames"]},
+        "jobs": [{"pkg": "motion", "test": "TestVerif_C15", "shards": (16, 16), "timeout": (300, 2400), "require": ["boson_sized_streams", "frames", "threshold_recomputations", "reseeds", "recording_starts_checked", "ffc_frames"]},
                  {"pkg": "throttle", "test": "TestVerif_ThrottleComposition", "shards": (16, 16), "timeout": (300, 2400), "require": ["composition_runs", "base_starts_checked", "mid_trigger_restarts", "base_start_failures", "runs_with_disk_low_windows"]}],
     },
     "C16": {
@@ -290,7 +290,7 @@ PROPS = {
         "level_note": "A porcupine register model would also demand monotonic reads across requests, which the property does not state; the direct interval check is exactly the property and linear with unique ids.",
         "technique": "Go race detector + interval (freshness) checker over a logical-clock event log",
         "jobs": [{"pkg": "recorder-main", "test": "TestVerif_C16", "race": True, "shards": (6, 16), "gomaxprocs": [1, 2, 4, 16, 16, 3], "timeout": (900, 3000), "hang_is_violation": True,
-                  "require": ["snapshots_checked", "held_snapshots_rechecked", "reconnect_probes", "requests_TakeSnapshot", "requests_TakeTestRecording", "requests_CameraInfo", "motion_recordings_matched", "test_recordings_found"]}],
+                  "require": ["outage_probes", "snapshots_checked", "held_snapshots_rechecked", "reconnect_probes", "requests_TakeSnapshot", "requests_TakeTestRecording", "requests_CameraInfo", "motion_recordings_matched", "test_recordings_found"]}],
     },
     "C17": {
         "title": "Continuous recorder tiles the stream; a test recording is 21 consecutive frames",
@@ -322,6 +322,7 @@ PROPS = {
         "technique": "offline file checker + hook-based conservation monitor + Go race detector",
         "jobs": [{"pkg": "writer-main", "test": "TestVerif_C18", "race": True, "shards": (16, 16), "gomaxprocs": [1, 2, 4, 16], "timeout": (900, 3000), "hang_is_violation": True,
                   "require": ["connections", "frames_verified", "buffers_recycled", "runs_reaching_256_in_flight", "overlapping_connection_pairs"]},
+                 {"pkg": "writer-main", "test": "TestVerif_C18Names", "race": True, "shards": (8, 16), "timeout": (600, 1800), "require": ["shared_directory_runs", "connections_into_shared_directory"]},
                  {"pkg": "writer-main-fastrotate", "test": "TestVerif_C18Rotate", "race": True, "shards": (4, 8), "timeout": (600, 1800), "hang_is_violation": True,
                   "require": ["runs_crossing_file_rotation", "frames_verified"]}],
     },
@@ -350,7 +351,7 @@ PROPS = {
         "level_text": "Online shadow-model monitor over every short (message, arrival time) sequence at the interval boundaries and long random sequences; the real limiter runs with an injected clock and its real log output is compared line by line.",
         "level_note": "Trusts the two-variable shadow model; real time is used only in the MotionProcessor consequence job as a one-sided (sound) bound.",
         "technique": "online shadow-model monitor with injected clock",
-        "jobs": [{"pkg": "loglimiter", "test": "TestVerif_C20", "shards": (8, 16), "timeout": (120, 900), "require": ["printed", "suppressed"]},
+        "jobs": [{"pkg": "loglimiter", "test": "TestVerif_C20", "shards": (8, 16), "timeout": (120, 900), "require": ["quiet_periods_of_weeks", "printed", "suppressed"]},
                  {"pkg": "motion", "test": "TestVerif_C20Processor", "shards": (4, 8), "timeout": (120, 900), "require": ["refused_starts", "log_lines"]}],
     },
 }
